@@ -81,12 +81,20 @@ type run struct {
 	rng      *rand.Rand
 }
 
+// sink, when set by the worker, receives every event as soon as it is recorded, so that
+// the events of a scenario that crashes the process are not lost.
+var sink func(Event)
+
 func (r *run) rec(e Event) {
 	r.mu.Lock()
 	r.seq++
 	e["seq"] = r.seq
 	e["tr"] = r.sc.ID
-	r.events = append(r.events, e)
+	if sink != nil {
+		sink(e)
+	} else {
+		r.events = append(r.events, e)
+	}
 	r.mu.Unlock()
 }
 
@@ -644,11 +652,20 @@ func (r *run) exec(c, i int, op *Op) {
 		r.p.UpdateBarPriority(bar, int(op.N), op.Flag)
 	case "get":
 		r.rec(inv)
+		ret["id"] = bar.ID()
+		ret["running"] = bar.IsRunning()
 		ret["cur"] = bar.Current()
 		ret["completed"] = bar.Completed()
 		ret["aborted"] = bar.Aborted()
-		ret["running"] = bar.IsRunning()
-		ret["id"] = bar.ID()
+	case "getcur":
+		r.rec(inv)
+		ret["res"] = bar.Current()
+	case "getcomp":
+		r.rec(inv)
+		ret["res"] = b2i(bar.Completed())
+	case "getab":
+		r.rec(inv)
+		ret["res"] = b2i(bar.Aborted())
 	case "barwait":
 		r.rec(inv)
 		bar.Wait()
